@@ -32,6 +32,7 @@ OPS = [
     ("select_acc", lambda r, i: ao.op_select_fields(r, i, "accessor")),
     ("set_lists_bad", lambda r, i: ao.op_set_lists(r, i, "array", malformed=True)),
     ("set_flat_bad", lambda r, i: ao.op_set_flat(r, i, "array", malformed=True)),
+    ("setitem2", ao.op_setitem), ("export_ls", None),
 ]
 
 
@@ -44,9 +45,24 @@ def views_case(inp):
             "hist": {"op": "views", "layout": inp["recipe"]}}
 
 
+def export_case(inp):
+    """list-of-structs export of one layout (C19's mechanism, here across layouts)"""
+    from harness.streams import c19 as c19mod
+    from harness.core import attempt, cq_lrows
+    arr, st = inp["arr"], inp["ca"].type
+    names = [f.name for f in st]
+    res = attempt(lambda: arr.chunked_list_struct_array)
+    impl = f"(Ok {cq_lrows(c19mod._norm_ts(c19mod.ls_rows_py(res[1], names), st))})" if res[0] == "ok" else "Err"
+    term = f"(let P := {inp['P']} in let L := {inp['L']} in chk_ls_export P L {impl})"
+    return {"stream": "interchange", "op": "export_list_struct", "term": term, "input": ao.input_repr(inp),
+            "impl_repr": str(res[0]) + " " + (repr(res[1].to_pylist()) if res[0] == "ok" else res[1]),
+            "meta": ao.base_meta(inp, impl_raised=res[0] == "err"), "sig": ["export", inp["recipe"], len(inp["rows"])],
+            "trivial": False, "hist": {"op": "export_list_struct", "layout": inp["recipe"]}}
+
+
 def generate(ctx):
     rng = ctx.rng
-    n_contents = ctx.budget(45, 300)
+    n_contents = ctx.budget(110, 600)
     k = 4 if ctx.tier == "quick" else 8
     cases = []
     for ci in range(n_contents):
@@ -65,10 +81,12 @@ def generate(ctx):
         inps = ([h] if h else []) + [ao.mk_input(rng, content=content, recipe=l) for l in layouts]
         inps = [i for i in inps if i["built"][0] == "ok"]
         name, op = OPS[ci % (len(OPS) + 2)] if ci % (len(OPS) + 2) < len(OPS) else ("views", None)
+        if name == "export_ls":
+            op = export_case
         opseed = rng.getrandbits(48)
         group = []
         for inp in inps:
-            c = views_case(inp) if op is None else op(random.Random(opseed), inp)
+            c = views_case(inp) if op is None else (op(inp) if op is export_case else op(random.Random(opseed), inp))
             c.pop("_result", None)
             c["input"]["content_id"] = ci
             group.append(c)
